@@ -14,10 +14,10 @@ from common import CoqRunError, coq_Q, coq_bool, coq_list, coq_xq, load_corpus, 
 import sampling as S
 import c02
 
-MODELS = c02.MODELS + ["Model/Iterative.vo"]
+MODELS = c02.MODELS + ["Model/Iterative.vo", "Gen/ConstsGen.vo"]
 
 HEADER = """From Coq Require Import QArith List Bool.
-From TJ Require Import Base.XQ Base.Corr Model.Reject Model.Iterative.
+From TJ Require Import Base.XQ Base.Corr Model.Reject Model.Iterative Gen.ConstsGen.
 Import ListNotations.
 Definition check (c : it_case) : bool := match it_check 60 c with Some false => false | _ => true end.
 Definition undecided (c : it_case) : bool := match it_check 60 c with None => true | _ => false end.
@@ -217,7 +217,7 @@ def case_term(case, obs):
     ordt = "None" if obs["order"] is None else "(Some " + coq_list([f"{int(i)}%nat" for i in obs["order"]]) + ")"
     lnp = coq_list([coq_xq(x) for x in S.lnprior_of_row(np.arange(case["n"]))])
     return (f"(mk_it_case {coq_bool(case['path'] == 'inmem')} {coq_list([coq_xq(x) for x in prof])} {ordt} {case['n_req']}%nat {budget}%nat "
-            f"{first}%nat 128%nat {case['n_linear']}%nat {lnp} {coq_list(steps)} {o})")
+            f"{first}%nat {'maxiter_inmem_gen' if case['path'] == 'inmem' else 'maxiter_file_gen'} {case['n_linear']}%nat {lnp} {coq_list(steps)} {o})")
 
 
 def classify(case, msg):
@@ -249,11 +249,12 @@ def run_cases(ctx, cases, prop="C14", classify_fn=None):
 
 def run(ctx):
     ctx.make_overlay(need_kernel=True)
-    ctx.regen_all(needed=("py2v_reject.py",))  # Gen/RejectSites.v: the four rejection sites as the source has them now
+    ctx.regen_all(needed=("py2v_reject.py", "consts2v.py"))  # Gen/RejectSites.v, Gen/ConstsGen.v: rejection sites and loop bounds as the source has them now
     ok = ctx.build_models(MODELS)
     if ok:
         ctx.build_props()
         ctx.build_props("Props/C02g.vo")  # the generated rejection sites (rule, truncation, index spaces, columns) are the model
+        ctx.build_props("Props/C14c.vo")  # loop bounds read from the source
     cases = load_corpus("C14") + gen_cases(ctx)
     n_eval = nt = 0
     try:
